@@ -98,7 +98,7 @@ HARNESSES = [
          bound="block size 64 (root 4 entries, interior node 7), 1/4/5/28/29 (thorough: 50, two second-level nodes) leaf blocks: one-, two- and three-level trees; leaf hashes, "
                "inode numbers, hash version symbolic"),
 ]
-P5_UW = ["main.%d:130" % i for i in range(48)] + ["fix_problem.%d:18" % i for i in range(4)] + ["vf_bit.0:18", "vf_get_range.0:9",
+P5_UW = ["main.%d:200" % i for i in range(48)] + ["fix_problem.%d:18" % i for i in range(4)] + ["vf_bit.0:18", "vf_get_range.0:9",
          "ext2fs_test_inode_bitmap_range.0:9", "vf_reset_record.0:18", "vf_reset_record.1:4", "ext2fs_bitcount.0:5", "ext2fs_bitcount.1:3", "ext2fs_bitcount.2:5",
          "io_channel_discard.0:26"]
 HARNESSES.append(
